@@ -1,6 +1,6 @@
 (* Property C07 -- an EQL query translated to SQL selects the same entities as in-memory evaluation.
    Only statements, each closed by [exact].  Model: Orm/EqlToSql.v (translator, tree after the C07 fix: commits
-   5ffa83c f1c6930 6b20ce1 6e7d0db 7e47af0 f599ad3 20777ed 24ba119 c0600cf cbfdb2e 313603b 99b53a0 beaaa59 ca259e0 562b77d 7963bf7 873189c 5834cd1 0ef3a40 7ef093b) over Orm/SqlAlg.v (what the statement means on SQLite --
+   5ffa83c f1c6930 6b20ce1 6e7d0db 7e47af0 f599ad3 20777ed 24ba119 c0600cf cbfdb2e 313603b 99b53a0 beaaa59 ca259e0 562b77d 7963bf7 873189c 5834cd1 0ef3a40 7ef093b 4f6a661 517d0b9 dc46254) over Orm/SqlAlg.v (what the statement means on SQLite --
    compared, not proved); Spec: Orm/EqlToSqlSpec.v ([answers]).  Level: partial. *)
 From Coq Require Import List ZArith Bool.
 From Krrood Require Import Base.Sx Orm.EqlToSqlSpec Orm.SqlAlg Orm.EqlToSql Orm.EqlToSqlProofs Orm.EqlToSqlJoinProofs.
@@ -115,6 +115,14 @@ Theorem C07_rejects_long_join : forall sc q v1 a1 b1 ch1 v2 ch2,
   q_cond q = Some (CCmp OEq (OAttr v1 (a1 :: b1 :: ch1)) (OAttr v2 ch2)) -> v2 <> q_sel q ->
   forall s, translate sc q <> TOk s.
 Proof. exact rejects_long_join. Qed.
+Theorem C07_rejects_text_number_columns : forall sc q op v ch1 ch2,
+  q_cond q = Some (CCmp op (OAttr v ch1) (OAttr v ch2)) ->
+  col_mismatch sc (q_vars q) (OAttr v ch1) (OAttr v ch2) = true -> forall s, translate sc q <> TOk s.
+Proof. exact rejects_text_number_columns. Qed.
+Example C07_fixed_round8 :         (* b.name == b.size and b.size < b.name are rejected (was C07-ac) *)
+  translate Wit.sc (Wit.mk false [(1, 5)] (CCmp OEq (OAttr 1 [1]) (OAttr 1 [9]))) = TReject /\
+  translate Wit.sc (Wit.mk false [(1, 5)] (CCmp OLt (OAttr 1 [9]) (OAttr 1 [1]))) = TReject.
+Proof. exact fixed_round8. Qed.
 Example C07_fixed_round7 :         (* two variables of one type, long join chain, unknown operand, text vs number, plain-value variable: rejected;
                                       None inside in_: same rows; an or-join over an empty other table keeps the rows (outside F07J) *)
   translate Wit.sc WitJ.q_two_vars = TReject /\ translate Wit.sc WitJ.q_long_join = TReject /\
@@ -223,3 +231,4 @@ Print Assumptions C07_rejects_enum_order.
 Print Assumptions C07_rejects_other.
 Print Assumptions C07_rejects_text_number.
 Print Assumptions C07_rejects_long_join.
+Print Assumptions C07_rejects_text_number_columns.
